@@ -169,6 +169,23 @@ impl Item {
         }
     }
 
+    /// The same item with the max length left implicit where it equals the
+    /// prefix length (the other way of writing an origin through the public
+    /// API; routers' data is keyed by these values).
+    pub fn to_payload_implicit(&self) -> Payload {
+        match self {
+            Item::V4 { addr, len, max, asn } if max == len => Payload::origin(
+                MaxLenPrefix::new(Prefix::new_v4(Ipv4Addr::from(*addr), *len).expect("canonical v4"), None).expect("implicit max-len"),
+                Asn::from_u32(*asn),
+            ),
+            Item::V6 { hi, lo, len, max, asn } if max == len => Payload::origin(
+                MaxLenPrefix::from(Prefix::new_v6(Ipv6Addr::from(((*hi as u128) << 64) | *lo as u128), *len).expect("canonical v6")),
+                Asn::from_u32(*asn),
+            ),
+            other => other.to_payload(),
+        }
+    }
+
     pub fn from_payload(p: &Payload) -> Item {
         match p {
             Payload::Origin(o) => {
@@ -530,16 +547,38 @@ pub struct ApplyRec {
     pub reset: bool,
     pub items: Vec<(bool, Item)>,
     pub timing: Tm,
+    /// Items handed over that are not interchangeable with the same item
+    /// built through the public constructors (==, hash, cmp disagree).
+    pub problems: Vec<String>,
 }
 
 pub struct RecUpdate {
     reset: bool,
     items: Vec<(bool, Item)>,
+    problems: Vec<String>,
+}
+
+fn hash_of<T: std::hash::Hash>(t: &T) -> u64 {
+    use std::hash::Hasher;
+    let mut h = std::collections::hash_map::DefaultHasher::new();
+    t.hash(&mut h);
+    h.finish()
 }
 
 impl PayloadUpdate for RecUpdate {
     fn push_update(&mut self, action: Action, payload: Payload) -> Result<(), PayloadError> {
-        self.items.push((action.is_announce(), Item::from_payload(&payload)));
+        let item = Item::from_payload(&payload);
+        // a target keeps these values in hash or ordered sets: what arrives must find
+        // (withdraw) or replace (announce) the entry stored under the same item
+        for (how, twin) in [("explicit max length", item.to_payload()), ("implicit max length", item.to_payload_implicit())] {
+            if twin != payload || hash_of(&twin) != hash_of(&payload) || twin.cmp(&payload) != std::cmp::Ordering::Equal {
+                self.problems.push(format!(
+                    "{:?} handed to the target and the same item built with {} ({:?}): == {}, same hash {}, cmp {:?}",
+                    payload, how, twin, twin == payload, hash_of(&twin) == hash_of(&payload), twin.cmp(&payload)
+                ));
+            }
+        }
+        self.items.push((action.is_announce(), item));
         Ok(())
     }
 }
@@ -555,13 +594,14 @@ impl PayloadTarget for RecTarget {
     type Update = RecUpdate;
     fn start(&mut self, reset: bool) -> RecUpdate {
         self.starts.push(reset);
-        RecUpdate { reset, items: Vec::new() }
+        RecUpdate { reset, items: Vec::new(), problems: Vec::new() }
     }
     fn apply(&mut self, update: RecUpdate, timing: Timing) -> Result<(), PayloadError> {
         self.log.push(ApplyRec {
             reset: update.reset,
             items: update.items,
             timing: (timing.refresh, timing.retry, timing.expire),
+            problems: update.problems,
         });
         Ok(())
     }
